@@ -25,8 +25,8 @@ type intReader struct {
 	std func(in []byte) (*big.Int, error)
 }
 
-func bigI(i int64) *big.Int   { return big.NewInt(i) }
-func bigU(u uint64) *big.Int  { return new(big.Int).SetUint64(u) }
+func bigI(i int64) *big.Int  { return big.NewInt(i) }
+func bigU(u uint64) *big.Int { return new(big.Int).SetUint64(u) }
 
 var (
 	intMin, intMax = bigI(math.MinInt), bigI(math.MaxInt)
@@ -41,17 +41,45 @@ var c05Readers = []intReader{
 	{"ReadInt32", bigI(math.MinInt32), bigI(math.MaxInt32), func(in []byte) (*big.Int, int, error) { v, p, e := rjson.ReadInt32(in); return bigI(int64(v)), p, e },
 		func(in []byte) (*big.Int, error) { var v int32; e := json.Unmarshal(in, &v); return bigI(int64(v)), e }},
 	{"ReadUint32", bigI(0), bigU(math.MaxUint32), func(in []byte) (*big.Int, int, error) { v, p, e := rjson.ReadUint32(in); return bigU(uint64(v)), p, e },
-		func(in []byte) (*big.Int, error) { var v uint32; e := json.Unmarshal(in, &v); return bigU(uint64(v)), e }},
+		func(in []byte) (*big.Int, error) {
+			var v uint32
+			e := json.Unmarshal(in, &v)
+			return bigU(uint64(v)), e
+		}},
 	{"ReadInt", intMin, intMax, func(in []byte) (*big.Int, int, error) { v, p, e := rjson.ReadInt(in); return bigI(int64(v)), p, e },
 		func(in []byte) (*big.Int, error) { var v int; e := json.Unmarshal(in, &v); return bigI(int64(v)), e }},
 	{"ReadUint", bigI(0), uintMax, func(in []byte) (*big.Int, int, error) { v, p, e := rjson.ReadUint(in); return bigU(uint64(v)), p, e },
 		func(in []byte) (*big.Int, error) { var v uint; e := json.Unmarshal(in, &v); return bigU(uint64(v)), e }},
-	{"DecodeInt64", bigI(math.MinInt64), bigI(math.MaxInt64), func(in []byte) (*big.Int, int, error) { var v int64 = 77; p, e := rjson.DecodeInt64(in, &v); return bigI(v), p, e }, nil},
-	{"DecodeUint64", bigI(0), bigU(math.MaxUint64), func(in []byte) (*big.Int, int, error) { var v uint64 = 77; p, e := rjson.DecodeUint64(in, &v); return bigU(v), p, e }, nil},
-	{"DecodeInt32", bigI(math.MinInt32), bigI(math.MaxInt32), func(in []byte) (*big.Int, int, error) { var v int32 = 77; p, e := rjson.DecodeInt32(in, &v); return bigI(int64(v)), p, e }, nil},
-	{"DecodeUint32", bigI(0), bigU(math.MaxUint32), func(in []byte) (*big.Int, int, error) { var v uint32 = 77; p, e := rjson.DecodeUint32(in, &v); return bigU(uint64(v)), p, e }, nil},
-	{"DecodeInt", intMin, intMax, func(in []byte) (*big.Int, int, error) { var v int = 77; p, e := rjson.DecodeInt(in, &v); return bigI(int64(v)), p, e }, nil},
-	{"DecodeUint", bigI(0), uintMax, func(in []byte) (*big.Int, int, error) { var v uint = 77; p, e := rjson.DecodeUint(in, &v); return bigU(uint64(v)), p, e }, nil},
+	{"DecodeInt64", bigI(math.MinInt64), bigI(math.MaxInt64), func(in []byte) (*big.Int, int, error) {
+		var v int64 = 77
+		p, e := rjson.DecodeInt64(in, &v)
+		return bigI(v), p, e
+	}, nil},
+	{"DecodeUint64", bigI(0), bigU(math.MaxUint64), func(in []byte) (*big.Int, int, error) {
+		var v uint64 = 77
+		p, e := rjson.DecodeUint64(in, &v)
+		return bigU(v), p, e
+	}, nil},
+	{"DecodeInt32", bigI(math.MinInt32), bigI(math.MaxInt32), func(in []byte) (*big.Int, int, error) {
+		var v int32 = 77
+		p, e := rjson.DecodeInt32(in, &v)
+		return bigI(int64(v)), p, e
+	}, nil},
+	{"DecodeUint32", bigI(0), bigU(math.MaxUint32), func(in []byte) (*big.Int, int, error) {
+		var v uint32 = 77
+		p, e := rjson.DecodeUint32(in, &v)
+		return bigU(uint64(v)), p, e
+	}, nil},
+	{"DecodeInt", intMin, intMax, func(in []byte) (*big.Int, int, error) {
+		var v int = 77
+		p, e := rjson.DecodeInt(in, &v)
+		return bigI(int64(v)), p, e
+	}, nil},
+	{"DecodeUint", bigI(0), uintMax, func(in []byte) (*big.Int, int, error) {
+		var v uint = 77
+		p, e := rjson.DecodeUint(in, &v)
+		return bigU(uint64(v)), p, e
+	}, nil},
 }
 
 func init() {
